@@ -229,8 +229,9 @@ def grounds(ctx, fn, N, R3="C03.3"):
     t = show(N.term(fn["body"]), 10 ** 6)
     # fields_equal zips the two field lists (C1_0 with generics C1_1, C1_2 with generics C1_3): the left field's name is looked up in the
     # left list, the right field's name in the right list
-    Z = "Option::zip(GenericsList::index_for_type_name(C1_1,C2_0.0.type_name@v1::Some.0),GenericsList::index_for_type_name(C1_3,C2_0.1.type_name@v1::Some.0))"
-    tn = "(let v1::Some($)=%s&&(%s@v1::Some.0.0==%s@v1::Some.0.1))" % (Z, Z, Z)
+    ZA = "GenericsList::index_for_type_name(C1_1,C2_0.0.type_name@v1::Some.0)"
+    ZB = "GenericsList::index_for_type_name(C1_3,C2_0.1.type_name@v1::Some.0)"
+    tn = "((let v1::Some($)=%s&&let v1::Some($)=%s)&&(%s@v1::Some.0==%s@v1::Some.0))" % (ZA, ZB, ZA, ZB)
     ctx.expect(tn in t, R3, "ground/same-generic-name-index", fn["sp"], "field types named by a generic parameter are equal iff both names resolve to the same parameter index",
                "the type-name ground of compare_fields changed")
 
